@@ -429,3 +429,91 @@ func VerifReadFiles(roots []string, file bool, dir bool, hidden bool, follow boo
 	r.readFiles(roots, walkerOpts{file: file, dir: dir, hidden: hidden, follow: follow}, ignores)
 	return out
 }
+
+// --- options.go (bind parsing, option parsing) ---
+
+func VerifMaskActionContents(s string) string { return maskActionContents(s) }
+func VerifExecuteRegexp() string              { return executeRegexp.String() }
+
+type VerifBoundAction struct {
+	Name string
+	Arg  string
+}
+
+// VerifParseKeymap parses a --bind specification into a fresh keymap and returns, per key event
+// (type, char), the bound actions in order.
+func VerifParseKeymap(str string) (map[[2]int][]VerifBoundAction, error) {
+	keymap := make(map[tui.Event][]*action)
+	if err := parseKeymap(keymap, str); err != nil {
+		return nil, err
+	}
+	out := map[[2]int][]VerifBoundAction{}
+	for k, acts := range keymap {
+		list := []VerifBoundAction{}
+		for _, a := range acts {
+			list = append(list, VerifBoundAction{a.t.Name(), a.a})
+		}
+		out[[2]int{int(k.Type), int(k.Char)}] = list
+	}
+	return out, nil
+}
+
+// VerifParseKeyChords: the key events a comma-separated key list denotes.
+func VerifParseKeyChords(str string) ([][2]int, error) {
+	chords, err := parseKeyChordsImpl(str, "key name required")
+	if err != nil {
+		return nil, err
+	}
+	out := [][2]int{}
+	for k := range chords {
+		out = append(out, [2]int{int(k.Type), int(k.Char)})
+	}
+	return out, nil
+}
+
+// VerifOptionsDump parses options (optionally with $FZF_DEFAULT_OPTS in effect) and returns a
+// canonical dump of a set of fields, or the error.
+func VerifOptionsDump(useDefaults bool, args []string) (map[string]string, error) {
+	opts, err := ParseOptions(useDefaults, args)
+	if err != nil {
+		return nil, err
+	}
+	d := map[string]string{}
+	b := func(x bool) string {
+		if x {
+			return "1"
+		}
+		return "0"
+	}
+	d["multi"] = fmt.Sprint(opts.Multi)
+	d["cycle"] = b(opts.Cycle)
+	d["tac"] = b(opts.Tac)
+	d["case"] = fmt.Sprint(int(opts.Case))
+	d["fuzzy"] = b(opts.Fuzzy)
+	d["extended"] = b(opts.Extended)
+	d["sort"] = b(opts.Sort > 0)
+	d["layout"] = fmt.Sprint(int(opts.Layout))
+	d["prompt"] = opts.Prompt
+	d["query"] = opts.Query
+	if opts.Filter != nil {
+		d["filter"] = "=" + *opts.Filter
+	} else {
+		d["filter"] = "nil"
+	}
+	d["scheme"] = opts.Scheme
+	d["tabstop"] = fmt.Sprint(opts.Tabstop)
+	d["scrolloff"] = fmt.Sprint(opts.ScrollOff)
+	d["ansi"] = b(opts.Ansi)
+	d["read0"] = b(opts.ReadZero)
+	d["printquery"] = b(opts.PrintQuery)
+	d["select1"] = b(opts.Select1)
+	d["exit0"] = b(opts.Exit0)
+	d["tail"] = fmt.Sprint(opts.Tail)
+	d["headerlines"] = fmt.Sprint(opts.HeaderLines)
+	d["nth"] = RangesToString(opts.Nth)
+	d["literal"] = b(!opts.Normalize)
+	d["track"] = fmt.Sprint(int(opts.Track))
+	d["sync"] = b(opts.Sync)
+	d["printsep"] = opts.PrintSep
+	return d, nil
+}
